@@ -382,7 +382,7 @@ fn c11(r: &mut Rep) {
         ("<T, const N: usize = 3>", "<T, N>", &[], &[("T", ""), ("N", "usize")]),
         ("<'a, 'b: 'a>", "<'a, 'b>", &["'a", "'b"], &[]),
     ];
-    let counterparts: [(&str, &[&str]); 6] = [("B", &[]), ("B<T>", &[]), ("B<'a>", &["'a"]), ("B<'c>", &["'c"]), ("B<'a, 'c, T>", &["'a", "'c"]), ("B<i32>", &[])];
+    let counterparts: [(&str, &[&str]); 8] = [("B<'c, 'c>", &["'c"]), ("B<'a, 'c, 'a, 'c>", &["'a", "'c"]), ("B", &[]), ("B<T>", &[]), ("B<'a>", &["'a"]), ("B<'c>", &["'c"]), ("B<'a, 'c, T>", &["'a", "'c"]), ("B<i32>", &[])];
     let kinds = ["owned_into", "ref_into", "from_owned", "from_ref", "owned_into_existing", "ref_into_existing",
         "owned_try_into", "ref_try_into", "try_from_owned", "try_from_ref", "owned_try_into_existing", "ref_try_into_existing"];
     // (attributes, expected predicates for counterpart B..)
@@ -427,7 +427,7 @@ fn c11(r: &mut Rep) {
                     if let Some((_, b)) = lts.iter().find(|x| x.0 == "'o2o") {
                         let mut g: Vec<String> = b.split(" + ").map(|x| x.to_string()).collect();
                         let mut e: Vec<String> = relevant.iter().map(|x| x.to_string()).collect();
-                        g.sort(); e.sort();
+                        g.sort(); e.sort(); g.dedup(); e.dedup();   // a repeated bound is harmless
                         if g != e { r.fail(&src, format!("'o2o outlives {:?}, expected {:?}", g, e)); continue; }
                     }
                     // the two types of the header
